@@ -6,7 +6,7 @@ from pydiffx.dom import DiffX
 from pydiffx.errors import BaseDiffXError
 
 from mc import spec
-from mc.alphabets import encodable, misaligned, VENDOR_DIFF
+from mc.alphabets import encodable, misaligned, VENDOR_DIFF, META_BY_NAME
 from mc.domsnap import snap, fsnap, SAMPLE_DIFF
 from mc.explore import Acc, freeze
 from mc.observe import site_of
@@ -22,7 +22,9 @@ METAS = [None, {'a': 'x'}, {'k': {'sub': [1, 'two', {'t': None}]}, 'z': 'é'},
          {'z': [{'source': 's', 'dest': 'd', 'bytes': 3}],
           'a': {'y': {'q': 1, 'p': [{'n': 1, 'm': 2}]}}}]
 FMETAS = [{'path': 'f'}, {'path': 'g', 'revision': {'old': 'a', 'new': 'b'}},
-          None, {}]
+          None, {}, META_BY_NAME['degenerate-pairs'],
+          META_BY_NAME['semantic']]
+METAS.append(META_BY_NAME['degenerate-pairs'])
 DIFFS = [None, b'a\n', b'a', SAMPLE_DIFF, b'a\r\nb\r\n', b'a\r\nb\n',
          b'\x00\xff\n', b'#..file:\n', b'', 'x\n'.encode('utf-16'),
          VENDOR_DIFF]
